@@ -14,6 +14,7 @@ here = os.path.dirname(os.path.abspath(__file__))
 prompt = open(os.path.join(here, "PROMPT.base.md")).read()
 EMPHASIS = {
     "5": "Produce TWO independent *seeded defects* (call them `a` and `b`, touching different mechanisms / code sites). Both must read like work a maintainer would really do and commit with a harmless-sounding message: a performance optimisation (caching, avoiding a copy or an allocation, reading in bulk, early exit, reusing a buffer or a slice), a readability refactor (merging duplicated code into a helper, replacing a hand-written loop by a standard-library call such as strings.EqualFold / strings.Index / slices.Clone / maps.Clone / sort / bytes / unicode functions, turning an if-chain into a switch or a table), or a generalisation (accepting Unicode where only ASCII was handled, supporting larger inputs). The defect is the subtle behavioural difference the rewrite introduces. Think about where such a rewrite changes behaviour only for: multi-byte UTF-8 text or program source, texts with CR LF line ends, empty strings / empty matches / empty files, values at or just past a capacity (slice growth, buffer size, batch size), aliasing of slices and maps between a snapshot and the running state, the second or later use of something (second match, second command, second Run, second file), and negative / zero / very large numbers in amount clauses and process arithmetic",
+    "6": "Produce TWO independent *seeded defects* (call them `a` and `b`, touching different mechanisms / code sites). Assume the property is already guarded by randomized property-based tests that generate small programs and short inputs and compare the results with a reference implementation, and by the project's own unit tests. Choose defects such testing is UNLIKELY to trigger, yet that real users of the tool would meet sooner or later. Directions: behaviour that only differs at scale (long lines, many lines, thousands of matches, deep nesting, long literals, many alternatives, large numbers in amount clauses or loop bounds, big files, many files); rarely written but documented syntax and its combinations; particular byte values (NUL, DEL, 0x80-0xFF, multi-byte UTF-8, CR without LF, form feed); the environment (file without trailing newline, empty file, read-only or missing file, directory where a file is expected, symbolic links, relative vs absolute paths, pre-existing output files); the same compiled program or the same process used for a long time (hundreds of Run calls, many compiles, alternating programs); and values that sit exactly on a power of two or a buffer size. At least one of the two must live outside the function the property's anchors name first",
 }
 os.makedirs(base, exist_ok=True)
 for line in open("/verif/properties.jsonl"):
